@@ -538,6 +538,7 @@ func (o *vcOracle) before(st vsStep) (delRange map[string][2]int) {
 }
 
 func vcReplay(idx int, hist []vsStep, c vsConc, maxT int, stats *vcCrashStats, maxImages int) (res vcResult) {
+	c.NoEmpty = true
 	res = vcResult{I: idx, R: "ok", Conc: c}
 	rec := &vcRecorder{inner: xfs.NewMem()}
 	vstats := &vsStats{}
